@@ -305,7 +305,7 @@ func ruleTypeStr(c *Ctx) {
 		c.check(okDefault, "lz.ParseJSON:default", pj.Pos(), "an unknown Type yields (nil, error)", "ParseJSON does not reject an unknown Type with a non-nil error")
 	}
 	seen := map[string]string{}
-	var unmarshalHelper *ssa.Function
+	var unmarshalHelper, marshalHelper *ssa.Function
 	for _, T := range c.configTypes() {
 		name := T.Obj().Name()
 		m, _, ok1 := c.helperString(c.method(T, "MarshalJSON"))
@@ -328,6 +328,9 @@ func ruleTypeStr(c *Ctx) {
 		}
 		if uh != nil {
 			unmarshalHelper = uh
+		}
+		if _, mh, okm := c.helperString(c.method(T, "MarshalJSON")); okm && mh != nil {
+			marshalHelper = mh
 		}
 		// UnmarshalJSON zeroes *cfg first
 		if fn := c.method(T, "UnmarshalJSON"); fn != nil {
@@ -371,6 +374,82 @@ func ruleTypeStr(c *Ctx) {
 			}
 		}
 		c.check(ok, fnName(unmarshalHelper)+":type-mismatch", unmarshalHelper.Pos(), "a document whose Type differs from the expected one is rejected", "the unmarshal helper does not return an error when the document's Type differs")
+	}
+	// both JSON helpers copy EVERY field of the configuration: in their field loops no iteration reaches the next
+	// one without a reflect Set (of whatever kind) or leaving the function; a copy that is made for some kinds only
+	// drops the other fields on the way through JSON
+	for _, h := range []*ssa.Function{unmarshalHelper, marshalHelper} {
+		if h == nil {
+			continue
+		}
+		c.copiesEveryField(h)
+	}
+}
+
+// copiesEveryField: see ruleTypeStr. The field loop is the loop of h (or of a package helper h calls with the
+// configuration) whose body calls a Set* method of reflect.Value.
+func (c *Ctx) copiesEveryField(h *ssa.Function) {
+	isSet := func(in ssa.Instruction) bool {
+		call, ok := in.(*ssa.Call)
+		if !ok || call.Call.StaticCallee() == nil {
+			return false
+		}
+		callee := call.Call.StaticCallee()
+		return callee.Pkg != nil && callee.Pkg.Pkg.Path() == "reflect" && strings.HasPrefix(callee.Name(), "Set")
+	}
+	var fns []*ssa.Function
+	for fn := range c.reachable(h) {
+		if fn.Pkg == c.lz {
+			fns = append(fns, fn)
+		}
+	}
+	sort.Slice(fns, func(i, j int) bool { return fns[i].String() < fns[j].String() })
+	n := 0
+	for _, fn := range fns {
+		fi := c.info(fn)
+		for _, l := range fi.loops {
+			setBlocks := map[*ssa.BasicBlock]bool{}
+			for b := range l.Blocks {
+				for _, in := range b.Instrs {
+					if isSet(in) {
+						setBlocks[b] = true
+					}
+				}
+			}
+			if len(setBlocks) == 0 {
+				continue
+			}
+			n++
+			key := fmt.Sprintf("%s:copies-every-field#%d", fnName(h), n)
+			// from the loop body to the header again without a Set
+			skipped := false
+			seen := map[*ssa.BasicBlock]bool{}
+			var work []*ssa.BasicBlock
+			for _, sc := range l.Header.Succs {
+				if l.Blocks[sc] {
+					work = append(work, sc)
+				}
+			}
+			for len(work) > 0 {
+				b := work[len(work)-1]
+				work = work[:len(work)-1]
+				if seen[b] || setBlocks[b] || !l.Blocks[b] {
+					continue
+				}
+				seen[b] = true
+				for _, sc := range b.Succs {
+					if sc == l.Header {
+						skipped = true
+					}
+					work = append(work, sc)
+				}
+			}
+			c.check(!skipped, key, l.Header.Instrs[0].Pos(), "every iteration of the field loop in "+fnName(fn)+" sets the destination field (or leaves the function)",
+				"an iteration of the field loop in "+fnName(fn)+" can go on to the next field without setting the destination: fields of the skipped kind are lost on the way through JSON")
+		}
+	}
+	if n == 0 {
+		c.fail(fnName(h)+":copies-every-field", h.Pos(), "no field-copy loop (reflect Set in a loop) found")
 	}
 }
 
@@ -899,17 +978,49 @@ func ruleInitOrder(c *Ctx) {
 			(setDef.Block() == verify.Block() || setDef.Block().Dominates(verify.Block()))
 		c.check(sameVal && order, key+":defaults-then-verify", verify.Pos(), "SetDefaults then Verify on the same value",
 			"init does not verify the defaults-completed configuration (SetDefaults must precede Verify on the same value)")
-		// Verify's error returned when non-nil
+		// Verify's error returned when non-nil. The error may travel through a result variable (a helper
+		// inlined back, a named result): a φ is as good as Verify's result when each of its edges either
+		// carries that result or comes from a block in which it is known to be nil
+		carriers := []ssa.Value{verify}
+		for _, b := range init.Blocks {
+			for _, in := range b.Instrs {
+				phi, ok := in.(*ssa.Phi)
+				if !ok {
+					break
+				}
+				has, all := false, true
+				for i, e := range phi.Edges {
+					if e == verify {
+						has = true
+						continue
+					}
+					nilHere := false
+					for _, cd := range fi.condsAt(b.Preds[i]) {
+						if isNilCmp(cd, verify) == -1 {
+							nilHere = true
+						}
+					}
+					if !nilHere {
+						all = false
+					}
+				}
+				if has && all {
+					carriers = append(carriers, phi)
+				}
+			}
+		}
 		okErr := false
 		for _, b := range init.Blocks {
 			r, ok := b.Instrs[len(b.Instrs)-1].(*ssa.Return)
 			if !ok {
 				continue
 			}
-			if r.Results[0] == verify {
-				for _, cd := range fi.condsAt(b) {
-					if isNilCmp(cd, verify) == +1 {
-						okErr = true
+			for _, cv := range carriers {
+				if r.Results[0] == cv {
+					for _, cd := range fi.condsAt(b) {
+						if isNilCmp(cd, cv) == +1 {
+							okErr = true
+						}
 					}
 				}
 			}
@@ -934,8 +1045,10 @@ func ruleInitOrder(c *Ctx) {
 				}
 				nilSide := false
 				for _, cd := range fi.condsAt(b) {
-					if isNilCmp(cd, verify) == -1 {
-						nilSide = true
+					for _, cv := range carriers {
+						if isNilCmp(cd, cv) == -1 {
+							nilSide = true
+						}
 					}
 				}
 				if nilSide && fi.instrReaches(setDef, ld) {
